@@ -17,6 +17,7 @@ func init() {
 	scenarios["double-failed-leadership"] = scenDoubleFailedLeadership
 	scenarios["snap-config-race"] = scenSnapConfigRace
 	scenarios["double-install"] = scenDoubleInstall
+	scenarios["uncommitted-config"] = scenUncommittedConfig
 }
 
 // waitFor polls cond every hb/4 for at most n heartbeat timeouts.
@@ -438,5 +439,90 @@ func scenDoubleInstall(e *engineA) error {
 	// and once more while a snapshot is being taken
 	go e.cl.takeSnapshot(l, 0)
 	e.sleepHB(2, 4)
+	return e.finish()
+}
+
+// scenUncommittedConfig (C19 / C12 / C08): an isolated leader appends a
+// configuration entry it can never commit; the majority moves on. Variants:
+// (0) heal: the conflict is found exactly at the configuration entry's index;
+// (1) the isolated leader also takes a snapshot and is restarted before the heal;
+// (2) the majority snapshots and compacts, so that the node comes back by
+// snapshot installation with its log discarded.
+func scenUncommittedConfig(e *engineA) error {
+	e.prof = profiles["member"]
+	if err := e.boot(3); err != nil {
+		return err
+	}
+	e.cl.startInfoSampler(e.hb() / 2)
+	l := e.cl.leader()
+	if l == nil {
+		return fmt.Errorf("no leader")
+	}
+	for i := 0; i < 4; i++ {
+		e.cl.fsmOp(1, l, "update")
+	}
+	variant := e.cfg.paramInt("variant", e.rng.Intn(3))
+	if _, err := e.cl.start(4, e.cl.dirOf(4)); err != nil {
+		return err
+	}
+	e.ids = append(e.ids, 4)
+	e.rc.emit(&ev.Rec{K: "fault", Op: fmt.Sprintf("isolate-leader-then-changeconfig-v%d", variant), Nid: l.nid})
+	e.isolate(l, true)
+	go e.cl.changeConfig(l, "add(4) on isolated leader", func(conf *raft.Config) error {
+		return conf.AddNonvoter(4, e.cl.addrOf(4), false)
+	})
+	e.sleepHB(0.5, 1)
+	if variant == 1 {
+		e.cl.takeSnapshot(l, 0)
+	}
+	fs := e.others(l)
+	var nl *Node
+	if !e.waitFor(100, func() bool {
+		for _, f := range fs {
+			if f.nid == 4 {
+				continue
+			}
+			if info, ok := f.info(false); ok && info.State == raft.Leader {
+				nl = f
+				return true
+			}
+		}
+		return false
+	}) {
+		return fmt.Errorf("majority elected no leader")
+	}
+	if variant == 2 {
+		for i := 0; i < 20+e.rng.Intn(20); i++ {
+			if r := e.cl.fsmOpPad(1, nl, "update", 120+e.rng.Intn(200)); !r.ok {
+				break
+			}
+		}
+		e.sleepHB(4, 5)
+		e.cl.takeSnapshot(nl, 0)
+		e.waitFor(30, func() bool {
+			info, ok := nl.info(false)
+			return ok && info.FirstLogIndex > 6
+		})
+	} else {
+		e.cl.fsmOp(1, nl, "update")
+	}
+	if variant == 1 {
+		e.rc.emit(&ev.Rec{K: "fault", Op: "restart-isolated", Nid: l.nid})
+		if n2, err := e.cl.restart(l.nid); err == nil {
+			l = n2
+			e.isolate(l, true)
+		}
+	}
+	e.rc.emit(&ev.Rec{K: "fault", Op: "heal", Nid: l.nid})
+	e.isolate(l, false)
+	e.startClients(2, map[string]int{"update": 3, "read": 1})
+	e.sleepHB(6, 10)
+	if variant == 2 {
+		// the node that came back by installation labels its own next snapshot
+		if n := e.cl.node(l.nid); n != nil && n.alive() {
+			e.cl.takeSnapshot(n, 0)
+			e.sleepHB(1, 2)
+		}
+	}
 	return e.finish()
 }
